@@ -50,6 +50,16 @@ CHECKS = {
   technique='TLA+ spec Domain.tla: declarative image set (per-axis periodic shifts and reflections with layer conditions) vs the per-axis pass mechanism, model-checked by TLC on all inputs of small 1-D/2-D instances; updates of the real DomainManager decided by TLC (TraceDomain.tla)',
   text='The ghosts of a domain update are specified declaratively (every combination of per-axis periodic shifts / reflections whose layer conditions hold, as a multiset; ties at exactly the layer distance may go either way) together with wrapping, tagging, exact copies of the copied properties, reversed normal velocity for mirrors and idempotence of a second update. TLC checks that the implementation-shaped per-axis passes produce exactly that on every input of small instances. Thousands of lattice scenarios (1-3 D, periodic / mirror / mixed axes, n_layers 1-3, 1-2 arrays, copied-property subsets, move-then-update histories) are run through the real DomainManager and every round is decided by TLC.',
   note='Lattice unit is a power of two so all comparisons are exact; layer = n_layers*radius_scale*hmax smaller than the box; an axis is periodic or mirrored, not both.'),
+ 'C03': dict(
+  cat='model_checking', design_ref='DESIGN.md section 5 (C03), 4.4',
+  technique='TLA+ spec AccelEval.tla: executor of the group tree shaped like the generated code, model-checked by TLC over a small program grammar (AccelEvalMC.tla); hook-invocation logs of compiled logging-probe equations decided by TLC (TraceAccelEval.tla)',
+  text='The control structure of compute() (group order, destinations in order of first appearance, per-destination phase order, equations in user order, index ranges from start/stop/real, every source particle contributing, iteration rule with min/max and convergence, conditions, pre/post, update_nnps, sub-groups) is an executable TLA+ definition. TLC checks its documented properties on every program of a small grammar. Random group trees are rendered as logging probe equations in pysph\'s own DSL, compiled by the real generator and run on many data sets and condition/convergence scripts; TLC decides that each recorded log equals the documented one up to the order of neighbours and that converged() was asked as documented.',
+  note='Runs without OpenMP (total order observable). Probe equations log through constants shared by all arrays. Programs with min_iterations > max_iterations or max_iterations < 1 are not generated. 1-D lattice without ties at the cut-off.'),
+ 'C04': dict(
+  cat='model_checking', design_ref='DESIGN.md section 5 (C04), 4.5',
+  technique='TLA+ specs Integrator.tla (op-list machine = literal execution of one_timestep) and IntegratorProps.tla (property layer over event logs), model-checked by TLC over a grammar of programs (IntegratorMC.tla, which also emits the programs); compiled probe integrators/steppers and all shipped integrators run for real and decided by TLC (TraceIntegrator.tla)',
+  text='TLC explores a universe of one_timestep programs (1-3 stages, op orders, acceleration evaluations with/without neighbour refresh, update_domain placements, py_stage hooks, ghosts) and checks that literal execution satisfies the property layer; the printed programs are compiled as probe integrators whose steppers do exact integer arithmetic and log every call, and each real run (event log and final data) is decided by TLC. All shipped Integrator subclasses are parsed from source and run with probe steppers.',
+  note='Cross-array order inside a stage and particle order inside a loop are not demanded. Values computed with update_nnps=False after particles moved are not compared. Shipped steppers: event log and ghost-untouched clauses only.'),
 }
 
 NOT_APPLICABLE = {
